@@ -22,60 +22,103 @@ def _parse_fn(fb, rid):
     return fns[0]
 
 
+def _case_groups(fn):
+    """statement lists of the cases of the option switch (the switch with the most labels), following fall-through"""
+    import rules.C14 as c14
+    best = None
+    for sw in fn.all('SwitchStmt'):
+        g = c14.switch_groups(fn, sw)
+        if best is None or len(g) > len(best):
+            best = g
+    return best or []
+
+
 def time_option_rule(ctx, rid, fields=('receiveTimeout', 'acquireTimeout', 'extraLatency')):
-    """for every option value v that is accepted: v <= 1000 is meant as milliseconds and stored as it is, v > 1000 is the
-    old microsecond form and stored as v / 1000"""
+    """for option values v of the range parseInt admits (all up to 2100, and k*1000-1, k*1000, k*1000+1 above): the statements of the option's case are evaluated from the typed
+    AST (the number parsed = v, parse result OK); if the case stores a value at all (no rejecting return before the store), a
+    v <= 1000 is meant as milliseconds and stored as it is, a v > 1000 is the old microsecond form and stored as v / 1000"""
     import tinyeval
     fb = ctx.fb
     fn = _parse_fn(fb, rid)
     ctx.touch(fn)
     n = 0
     asg = list(fn.assignments())
+    groups = _case_groups(fn)
     for nid, d, rhs, op, lhs in asg:
         if lhs is None or rhs is None or op != '=':
             continue
         lk = fn.key(lhs)
         if not any(lk.endswith('.' + f) for f in fields):
             continue
-        # the number parsed for this option: the local the stored expression mentions
-        locs = sorted(set(fn.nodes[x]['decl'] for x in fn.walk(rhs) if fn.nodes[x]['k'] == 'DeclRefExpr' and fn.nodes[x].get('rk') == 'local'))
-        if len(locs) != 1:
-            raise AnalysisBroken('%s: the value stored into %s does not come from one parsed number' % (rid, lk))
-        vd = locs[0]
-        # its range: the parseInt call that defines it last in front of the store
-        defs = [(fn.line_of(n2), r2) for n2, d2, r2, o2, l2 in asg if d2 == vd and r2 is not None and fn.line_of(n2) <= fn.line_of(nid)
-                and (fn.nodes[fn.strip(r2, casts=True)].get('callee') or '').endswith('parseInt')]
-        if not defs:
+        grp = None
+        for labels, stmts in groups:
+            if any(nid in set(fn.walk(st)) for st in stmts):
+                grp = stmts
+        if grp is None:
+            raise AnalysisBroken('%s: the store into %s is not inside a case of the option switch' % (rid, lk))
+        # the parseInt call of this case: target variable, range, result variable
+        call = None
+        for n2, d2, r2, o2, l2 in asg:
+            if r2 is not None and any(n2 in set(fn.walk(st)) for st in grp) and fn.line_of(n2) <= fn.line_of(nid) and \
+                    (fn.nodes[fn.strip(r2, casts=True)].get('callee') or '').endswith('parseInt'):
+                call = (n2, d2, fn.nodes[fn.strip(r2, casts=True)])
+        if call is None:
             raise AnalysisBroken('%s: the parseInt call for %s was not found' % (rid, lk))
-        call = fn.nodes[fn.strip(sorted(defs)[-1][1], casts=True)]
-        lo, hi = fn.val(call['args'][2]), fn.val(call['args'][3])
+        pnid, vd, cv = call
+        lo, hi = fn.val(cv['args'][2]), fn.val(cv['args'][3])
         resname = None
-        a4 = fn.nodes[fn.strip(call['args'][4], casts=True)]
+        a4 = fn.nodes[fn.strip(cv['args'][4], casts=True)]
         if a4.get('k') == 'UnaryOperator' and a4.get('op') == '&':
             resname = fn.nodes[fn.strip(a4['ch'][0], casts=True)].get('decl')
         if lo is None or hi is None or hi > 2000000:
             raise AnalysisBroken('%s: range of the option stored into %s not constant' % (rid, lk))
-        guards = [(c, pol) for c, pol, b in fn.guards(nid) if not isinstance(pol, tuple) and
-                  any(fn.nodes[x].get('decl') == vd for x in fn.walk(c) if fn.nodes[x]['k'] == 'DeclRefExpr')]
         n += 1
         bad = []
+
+        class _Stored(Exception):
+            pass
         try:
-            for v in range(lo, hi + 1):
-                m = tinyeval.Machine(fn, {}, [])
-                m.locals[vd] = v
-                if resname:
-                    m.locals[resname] = 0
-                if not all(bool(m.rv(c)) == pol for c, pol in guards):
+            # every value up to 2100 (all thresholds of the conversion lie there), and around every multiple of 1000 above
+            vs = set(range(lo, min(hi, 2100) + 1)) | {hi}
+            for k in range(2, hi // 1000 + 1):
+                vs |= {k * 1000 - 1, k * 1000, k * 1000 + 1}
+            for v in sorted(x for x in vs if lo <= x <= hi):
+                m = tinyeval.Machine(fn, {}, [], max_steps=4000)
+                m.free = {'fprintf': lambda *a_: 0, 'ebusd::argParseError': lambda *a_: 0}
+                got = [None]
+                try:
+                    started = False
+                    for st in grp:
+                        inside = set(fn.walk(st))
+                        if pnid in inside:
+                            m.locals[vd] = v
+                            if resname:
+                                m.locals[resname] = 0
+                            started = True
+                            continue
+                        if not started:
+                            continue
+                        if nid in inside and fn.strip(st) == nid or nid == st:
+                            got[0] = m.rv(rhs)
+                            raise _Stored()
+                        if nid in inside:
+                            raise tinyeval.Unknown('the store is nested in another statement')
+                        m.st(st)
+                except tinyeval._Return:
+                    continue        # rejected
+                except tinyeval._Break:
                     continue
-                got = m.rv(rhs)
+                except _Stored:
+                    pass
+                if got[0] is None:
+                    continue
                 want = v if v <= 1000 else v // 1000
-                if got != want:
-                    if len(bad) < 3:
-                        bad.append('%d is stored as %d (expected %d ms)' % (v, got, want))
+                if got[0] != want and len(bad) < 3:
+                    bad.append('%d is stored as %d (expected %d ms)' % (v, got[0], want))
         except tinyeval.Unknown as e:
             raise AnalysisBroken('%s: option conversion for %s not evaluable (%s)' % (rid, lk, e))
         ctx.ob(rid, fn, nid, not bad, 'option value stored into %s' % lk.split('.')[-1],
-               'milliseconds for every accepted value %d..%d: %s%s' % (lo, hi, not bad, '' if not bad else ' - ' + '; '.join(bad)))
+               'milliseconds for every accepted value tried in %d..%d (all up to 2100, around every multiple of 1000 above): %s%s' % (lo, hi, not bad, '' if not bad else ' - ' + '; '.join(bad)))
     if n < len(fields):
         raise AnalysisBroken('%s: only %d of the time options found in parse_opt' % (rid, n))
 
